@@ -872,7 +872,7 @@ class PhaseTypeDistribution(MomentAwareDistribution):
             u_prev = u
 
         # sort probabilities back to original order
-        moments = moments[np.argsort(end_times)]
+        moments = moments[np.argsort(np.argsort(end_times))]
 
         if np.isnan(moments).any():
             self._logger.warning(
@@ -1021,6 +1021,8 @@ class TreeHeightDistribution(PhaseTypeDistribution, DensityAwareDistribution):
         if not isinstance(t, Iterable):
             return self.cdf(np.array([t]))[0]
 
+        t = np.asarray(t)
+
         # check for negative values
         if np.any(t < 0):
             raise ValueError("Negative values are not allowed.")
@@ -1069,7 +1071,7 @@ class TreeHeightDistribution(PhaseTypeDistribution, DensityAwareDistribution):
             u_prev = u
 
         # sort probabilities back to original order
-        probs = probs[np.argsort(t)]
+        probs = probs[np.argsort(np.argsort(t))]
 
         if np.isnan(probs).any():
             self._logger.critical(
